@@ -110,7 +110,11 @@ namespace vs {
         t_thread = 2     // later, on a plain std::thread
     };
     using outcome = std::pair<int, int>;    // (channel, value or error code; 0 for stopped)
-    inline std::string show(outcome o) { return verif::sf("%s(%d)", o.first == c_value ? "value" : (o.first == c_error ? "error" : "stopped"), o.second); }
+    inline std::string show(outcome o)
+    {
+        if (o.first < 0) return "not-completed";
+        return verif::sf("%s(%d)", o.first == c_value ? "value" : (o.first == c_error ? "error" : "stopped"), o.second);
+    }
 
     inline std::atomic<std::uint64_t> g_leaf_started{0}, g_leaf_inline{0}, g_leaf_pool{0}, g_leaf_thread{0};
 
